@@ -94,11 +94,34 @@ func cmdSweep(args []string) {
 					c.Requires = append(c.Requires, Clause{"nonnil_" + name, e, 0, e.String()})
 				}
 			}
+			// heuristic: signed integer fields of struct inputs are indices / counts, assumed non-negative (internal
+			// state with a negative offset is not an input anybody can produce)
+			nonNegFields := func(name string, T types.Type) {
+				if name == "" || name == "_" {
+					return
+				}
+				ST := T
+				if p, isPtr := under(T).(*types.Pointer); isPtr {
+					ST = p.Elem()
+				}
+				st, isS := under(ST).(*types.Struct)
+				if !isS {
+					return
+				}
+				for i := 0; i < st.NumFields(); i++ {
+					f := st.Field(i)
+					if b, isB := under(f.Type()).(*types.Basic); isB && b.Info()&types.IsInteger != 0 && b.Info()&types.IsUnsigned == 0 {
+						e := &SBinary{Op: "<=", X: &SInt{"0"}, Y: &SSel{X: &SIdent{name}, Name: f.Name()}}
+						c.Requires = append(c.Requires, Clause{"nonneg_" + name + "_" + f.Name(), e, 0, e.String()})
+					}
+				}
+			}
 			if r := sig.Recv(); r != nil {
 				if !rebuildable(r.Type(), 0) {
 					ok = false
 				}
 				nonNil(r.Name(), r.Type())
+				nonNegFields(r.Name(), r.Type())
 			}
 			for i := 0; i < sig.Params().Len() && ok; i++ {
 				p := sig.Params().At(i)
@@ -109,6 +132,7 @@ func cmdSweep(args []string) {
 					ok = false
 				}
 				nonNil(p.Name(), p.Type())
+				nonNegFields(p.Name(), p.Type())
 			}
 			if !ok {
 				continue
